@@ -150,6 +150,18 @@ def alphabet(tree, level="full"):
         ("sort_", "leaves"),
         ("reset_inds",),
     ]
+    if level == "mini":
+        # ~14 ops: one representative per mutating family, for depth 4
+        keep1 = {"contract": 1, "copy": 1, "remove_ind_": 2, "remove_ind": 1,
+                 "project_": 1, "restore_ind_": 2, "unslice_all_": 1,
+                 "slice_": 1, "reconf_": 1, "anneal_": 1, "sort_": 1,
+                 "reset_inds": 1}
+        out = []
+        for o in ops:
+            if keep1.get(o[0], 0) > 0:
+                keep1[o[0]] -= 1
+                out.append(o)
+        return out
     if level == "core":
         keep = {"contract", "contract_stats", "copy", "remove_ind_",
                 "remove_ind", "project_", "restore_ind_", "unslice_all_",
